@@ -23,14 +23,17 @@ PRECS = [2, 4, 8]
 KNOWN_SCALED = 'cost-not-exact:per-channel-0bit-scaled-by-alive-fraction'
 
 
-def gen_case(rng, idx, dwin=False):
+def gen_case(rng, idx, dwin=False, reuse=False):
     """dwin: separate small stream — per-channel 0-bit search with a depthwise conv. in the sharing group
     of the network input (open finding; kept apart from the main stream)"""
-    mode = 'chan0' if dwin else rng.choice(['layer', 'layer', 'layer', 'chan', 'chan0', 'chan0'])
+    mode = 'chan0' if dwin else rng.choice(['layer', 'layer', 'chan']) if reuse else rng.choice(['layer', 'layer', 'layer', 'chan', 'chan0', 'chan0'])
+    # reuse: separate stream — one conv / linear module invoked twice (same / other resolution); no 0-bit (a module has ONE input-feature calculator)
     ne16 = mode == 'layer' and rng.random() < 0.3
-    first = None
+    first = 'reuse2' if (reuse and rng.random() < 0.8) else None
     while True:
-        nodes = G.gen_spec(rng, ne16=ne16, first=first)
+        nodes = G.gen_spec(rng, ne16=ne16, first=first, reuse=reuse)
+        if reuse and not G.has_reuse(nodes):
+            continue
         # per-channel pruning next to the (unprunable) network input in one sharing group: not generated
         if mode == 'chan0' and (G.input_group_requantized(nodes) != dwin):
             first = 'dw' if dwin else None
@@ -132,13 +135,14 @@ def run_case(c):
         def probe(which, kind):
             def f(spec):
                 shown = {k: (float(spec[k]) if k in spec else None) for k in ('in_channels', 'out_channels', 'in_features', 'out_features')}
+                shown['output_shape'] = [int(v) for v in spec['output_shape']] if 'output_shape' in spec else None
                 rec.append((which, kind, id(spec['_parameters']['weight']), shown))
                 key = ('in_' if which == 'in' else 'out_') + ('features' if kind == 'lin' else 'channels')
                 return torch.as_tensor(spec[key], dtype=torch.float32) * 1.0
             return f
         specs = {'pb': params_bit, 'ob': ops_bit, 'mpic': mpic_latency}
         for which in ('in', 'out'):
-            ps = CostSpec(shared=True, default_behavior='zero')
+            ps = CostSpec(shared=False, default_behavior='zero')      # per invocation: every call site of a re-used layer is shown
             ps[Conv2dGeneric] = probe(which, 'conv')
             ps[Conv2dDW] = probe(which, 'dw')
             ps[Conv1dGeneric] = probe(which, 'conv')
@@ -222,6 +226,10 @@ def run_case(c):
                            [nd['c'], nd['c'], nd['ks'], k2, shp[i][1], h2] if nd['k'] == 'dw' else
                            [nd['cin'], nd['cout'], 1, 1, 1, 1])
             layers[i] = ent
+        # call sites: (node of the call, node of the layer); a 're-use' node is a further call of an earlier layer
+        sites = [(i, nd['of'] if nd['k'] == 'reuse' else i) for i, nd in enumerate(nodes) if nd['k'] in ('conv', 'dw', 'lin', 'reuse')]
+        tabs = {}
+        obs['sites'] = sites
         # LUT specs: the table of cost_fn values at every precision pair, from the spec's own function on
         # the ORIGINAL layer's attributes with effective features (per-layer search: effective = static)
         if c['mode'] == 'layer':
@@ -229,9 +237,10 @@ def run_case(c):
             for sk in ('mpic', 'ne16'):
                 if sk not in specs:
                     continue
-                for i, ent in layers.items():
+                for site, i in sites:
+                    ent = layers[i]
                     v0 = dict(orig_vars[i])
-                    v0['output_shape'] = (2, shp[i][0]) + (((shp[i][1],) * dim) if shp[i][1] else ())
+                    v0['output_shape'] = (2, shp[site][0]) + (((shp[site][1],) * dim) if shp[site][1] else ())
                     fn = specs[sk][(type(orig[i]), v0)]
                     tab = []
                     for ip in ent['pin']:
@@ -241,8 +250,9 @@ def run_case(c):
                             v.update(in_precision=torch.tensor(float(ip)), w_precision=torch.tensor(float(wp_)), w_theta_alpha=torch.tensor(1.0), in_format=int, w_format=int)
                             row.append(float(fn(v)))
                         tab.append(row)
-                    ent['tab_' + sk] = tab
+                    tabs.setdefault(sk, {})[str(site)] = tab
         obs['layers'] = {str(k): v for k, v in layers.items()}
+        obs['tabs'] = tabs
         if ds and ds['variant'] == 'prod-prunes':
             stage = 'second-run'
             setcols(L[ds['dw']][1], [ds['b']] * nodes[ds['dw']]['c'])
@@ -266,6 +276,8 @@ def expected(c, o):
     A layer's own cost counts ITS weights x ITS bits.  Returns totals {'pb','ob','pb_scaled','ob_scaled'} and per
     layer (effective input features, own alive output channels)."""
     nodes = c['nodes']
+    shp = G.shapes(nodes)
+    dim_ = nodes[0].get('dim', 2)
     mask = {}      # node -> list of bools (alive features of its output tensor)
     feats = {}
     tot = {'pb': 0, 'ob': 0, 'pb_scaled': Fraction(0), 'ob_scaled': Fraction(0)}
@@ -280,7 +292,8 @@ def expected(c, o):
         elif k == 'add':
             mask[i] = mask[nd['src'][0]]
         else:
-            ent = o['layers'][str(i)]
+            reused = k == 'reuse'
+            ent = o['layers'][str(nd['of'] if reused else i)]
             s = ent['summary']
             wps = s['w_precision'] if isinstance(s['w_precision'], list) else [s['w_precision']] * ent['geom'][1]
             C = len(wps)
@@ -290,10 +303,13 @@ def expected(c, o):
             mask[i] = [a and b for a, b in zip(own, mask[nd['src']])] if ent['type'] == 'dw' else own
             feats[i] = (ein, alive)
             kk = ent['geom'][2] * ent['geom'][3]
-            hw2 = ent['geom'][4] * ent['geom'][5]
+            hw_site = shp[i][1]
+            hw2 = 1 if ent['type'] == 'lin' else (hw_site ** dim_)      # output pixels of THIS call site
             unit = kk if ent['type'] == 'dw' else kk * ein if ent['type'] == 'conv' else ein
             pb = sum(unit * q for q in wps)
             ob = pb * hw2 * s['in_precision']
+            if reused:
+                pb = 0          # the weights of a re-used module exist once; its operations once per invocation
             tot['pb'] += pb
             tot['ob'] += ob
             tot['pb_scaled'] += Fraction(pb * alive, C)
@@ -340,11 +356,32 @@ def oracle(c, o):
         for sk in ('mpic', 'ne16'):
             if sk in costs and isinstance(costs[sk], float):
                 exp = 0.0
-                for i, ent in o['layers'].items():
+                for site, i in o['sites']:
+                    ent = o['layers'][str(i)]
                     s = ent['summary']
-                    exp += ent['tab_' + sk][ent['pin'].index(s['in_precision'])][ent['pw'].index(s['w_precision'])]
+                    exp += o['tabs'][sk][str(site)][ent['pin'].index(s['in_precision'])][ent['pw'].index(s['w_precision'])]
                 if not near(costs[sk], exp, 1e-4):
                     out.append(('cost-not-exact:%s_latency:per-layer' % sk, '%s_latency: get_cost = %r, spec function at the selected precisions summed = %r' % (sk, costs[sk], exp)))
+    # every invocation of a layer is costed with the output shape of THAT invocation
+    shp = G.shapes(c['nodes'])
+    dim_ = c['nodes'][0].get('dim', 2)
+    sites_of = {}
+    for site, i in o['sites']:
+        sites_of.setdefault(i, []).append(site)
+    seen_calls = {}
+    for (w, kd, node, sh) in o.get('shown_out', []):
+        if node is None or sh.get('output_shape') is None:
+            continue
+        ent = o['layers'][str(node)]
+        per_site = len(ent['pin']) * len(ent['pw'])
+        k_ = seen_calls.get(node, 0)
+        seen_calls[node] = k_ + 1
+        site = sites_of[node][min(k_ // per_site, len(sites_of[node]) - 1)]
+        exp_sp = [shp[site][1]] * dim_ if kd != 'lin' else []
+        if sh['output_shape'][2:] != exp_sp:
+            out.append(('spec-shown-wrong-output-shape' + (':layer-invoked-more-than-once' if len(sites_of[node]) > 1 else ''),
+                        'layer node %d (%s), invocation at node %d: cost function shown output_shape %r, this invocation produces spatial size %r'
+                        % (node, kd, site, sh['output_shape'], exp_sp)))
     # what the cost functions are shown
     for which in ('in', 'out'):
         for (w, kd, node, sh) in o.get('shown_' + which, []):
@@ -398,21 +435,26 @@ def model_exprs(c, o, fixed):
     nodes = c['nodes']
     ex, tags = [], []
     lays = []
+    shp = G.shapes(nodes)
+    dim_ = nodes[0].get('dim', 2)
+    q = lambda l: coq([Fraction(v) for v in l])
     for i, nd in enumerate(nodes):
-        ent = o['layers'].get(str(i))
+        reused = nd['k'] == 'reuse'
+        ent = o['layers'].get(str(nd['of'] if reused else i))
         if ent is None:
             lays.append('no_lay')
             continue
-        q = lambda l: coq([Fraction(v) for v in l])
         pc = isinstance(ent['tw'][0], list)
         th = [[Fraction(v) for v in row] for row in ent['tw']] if pc else []
         tw = [] if pc else [Fraction(v) for v in ent['tw']]
         z = some(Nat(ent['zero'])) if (pc and ent['zero'] is not None) else None
-        lays.append('(mkLay %s %s %s %s %s %s %s %s)' % (q(ent['geom'][2:6]), q(ent['pin']), q(ent['tin']), q(ent['pw']), coq(pc), coq(tw), coq(th), coq(z)))
-        for sk in ('mpic', 'ne16'):
-            if 'tab_' + sk in ent:
-                ex.append('run_table %s %s %s' % (coq([[Fraction(v) for v in row] for row in ent['tab_' + sk]]), q(ent['tin']), q(ent['tw'])))
-                tags.append(sk)
+        geom = ent['geom'][2:4] + ([1, 1] if ent['type'] == 'lin' else [shp[i][1], shp[i][1] if dim_ == 2 else 1])
+        lays.append('(mkLay %s %s %s %s %s %s %s %s %s)' % (q(geom), q(ent['pin']), q(ent['tin']), q(ent['pw']), coq(pc), coq(tw), coq(th), coq(z), coq(reused)))
+    for sk, per in o.get('tabs', {}).items():
+        for site, i in o['sites']:
+            ent = o['layers'][str(i)]
+            ex.append('run_table %s %s %s' % (coq([[Fraction(v) for v in row] for row in per[str(site)]]), q(ent['tin']), q(ent['tw'])))
+            tags.append(sk)
     ex.append('run_net false %s [%s]' % (coq(G.coq_ir(nodes)), '; '.join(lays)))
     tags.append('net')
     return ex, tags
@@ -422,7 +464,7 @@ def run(ctx):
     built = ctx.build()
     ctx.rule = ('grammar networks of vlib/mps_gen.py x search mode {per-layer (1/2), per-channel, per-channel with 0-bit (1/3)} x precision tuples from {2,4,8} (+0), any order x random alpha with arg-max margin '
                 'x temperature in [0.05,20] x gumbel/hard/disable_shared_quantizers flags x phase {eval, training with hard non-Gumbel sampling}; NE16 cases: activations (8,), kernels {1,3}. '
-                'separate streams: (a) pruned depthwise layer in the network-input group (open finding, own key); (b) disable_shared_quantizers=True x per-channel 0-bit x chain conv -> depthwise (Conv1d and Conv2d) where the producer prunes channels the depthwise layer keeps (cost DIFFERENCE when only the depthwise bits change must be own weights x delta bits) or vice versa. '
+                'separate streams: (r) one conv (c->c) / linear (h->h) module invoked twice, at the same or (after pooling) another resolution: per-invocation specs compared per call site; (a) pruned depthwise layer in the network-input group (open finding, own key); (b) disable_shared_quantizers=True x per-channel 0-bit x chain conv -> depthwise (Conv1d and Conv2d) where the producer prunes channels the depthwise layer keeps (cost DIFFERENCE when only the depthwise bits change must be own weights x delta bits) or vice versa. '
                 'one case = one network with one coefficient assignment, 5-6 cost specs; distinct by (architecture, mode, precisions, selected assignment); non-trivial = some layer has >= 2 candidate weight precisions')
     n = 240 if ctx.quick else 2400
     cases = []
@@ -438,6 +480,8 @@ def run(ctx):
         cases.append(gen_case(ctx.rng, n + i, dwin=True))
     for i in range(24 if ctx.quick else 200):
         cases.append(gen_dwsel(ctx.rng, n + 100 + i))
+    for i in range(30 if ctx.quick else 250):
+        cases.append(gen_case(ctx.rng, n + 400 + i, reuse=True))
     with ProcessPoolExecutor(min(NPROC, 8), mp_context=mp.get_context('fork')) as ex:
         obs = list(ex.map(run_case, cases, chunksize=8))
 
@@ -450,6 +494,8 @@ def run(ctx):
         ctx.case(key, nontrivial=len(c['wp']) > 1, kind='exc' if o['exc'] else c['mode'] + ':' + c['phase'],
                  sample={'nodes': kinds, 'mode': c['mode'], 'phase': c['phase'], 'ap': c['ap'], 'wp': c['wp'], 'T': c['T'], 'costs': o.get('costs')})
         ctx.dist['ne16:%s' % c['ne16']] += 1
+        if G.has_reuse(c['nodes']):
+            ctx.dist['layer-invoked-twice'] += 1
         if c.get('dwsel'):
             ctx.dist['dwsel:%s:%dd' % (c['dwsel']['variant'], c['nodes'][0].get('dim', 2))] += 1
         if c['mode'] == 'chan0' and not o['exc']:
